@@ -7,10 +7,12 @@ THEOREMS = {
             "popularity_normalised", "fit_ends_with_normalize", "partialFit_ends_with_normalize",
             "stat_greedy", "stat_ucb", "stat_softmax", "stat_thompson", "stat_popularity", "stat_random",
             "fitRec_append", "parallelFitIn_closed"],
+    "C17": ["rejected_noop", "train_rejected_noop", "query_rejected_noop", "rejected_then_continue"],
 }
 
 IMPORTS = {
     "C01": ["MabModel.Props.C01"],
+    "C17": ["MabModel.Props.C17"],
 }
 
 
